@@ -774,6 +774,54 @@ def rule_fileidx(ctx, rep, rid="R-C05-fileidx"):
                       "diverge and a problem is shown in the text of another file")
 
 
+def rule_display(ctx, rep, rid="R-C05-display"):
+    """The terminal renderer shows a label inside the text registered for the label's file.  handle_diagnostics registers the real text
+    only when it is given the project; without it every file is registered with empty text and every label is shown at line 1,
+    column 1 of an empty line.  So: a call that passes no project is only acceptable where no project exists yet."""
+    r = rep.rule(rid, "every call of cli::handle_diagnostics made where a FileBackedProject exists (a local of that type whose definition dominates the call, "
+                      "the value itself or a Result it is unwrapped from) passes the project: otherwise the labels are shown against empty text", floor=4,
+                 floor_what="calls of handle_diagnostics")
+    k = {}
+    for b in sorted(ctx.prog.bodies.values(), key=lambda x: x.id):
+        if b.f["crate"] != "ironplcc":
+            continue
+        dom = None
+        for c in sorted(b.calls(), key=lambda c: (c.loc[0], c.loc[1])):
+            if c.callee != "ironplcc::cli::handle_diagnostics" or len(c.args) < 2:
+                continue
+            fn = norm(b.id).replace("ironplcc::", "")
+            k[fn] = k.get(fn, 0) + 1
+            inst = "%s|handle_diagnostics#%d" % (fn, k[fn])
+            where = loc_str(b.f, c.loc)
+            # is the project argument None?
+            p = op_place(c.args[1])
+            d = b.single_def(p[0]) if p is not None and not p[1] else None
+            is_none = bool(d and d[0] == "stmt" and d[3][0] == "agg" and d[3][1].get("variant") == "None")
+            if not is_none:
+                r.ok(inst, where, "passes a project")
+                continue
+            if dom is None:
+                dom = b.dominators()
+            have = []
+            for l, ds in b.defs.items():
+                ty = b.local_ty(l)
+                if "FileBackedProject" not in ty or ty.startswith("&") or "Option<" in ty:
+                    continue
+                for dd in ds:
+                    bb = dd[1]
+                    if bb in dom.get(c.bb, ()) and bb != c.bb:
+                        have.append(b.local_name(l) or "_%d" % l)
+            # in a closure: the enclosing function's project counts when the closure is created after it
+            if not have and b.f["dk"] == "Closure":
+                par = ctx.prog.bodies.get(b.f.get("parent"))
+                if par is not None and any("FileBackedProject" in par.local_ty(l) and not par.local_ty(l).startswith("&") for l in range(1, len(par.f["locals"]))):
+                    have.append("(of the enclosing function)")
+            if have:
+                r.finding(inst + "|no-project", where, "a project exists here (%s) but the diagnostics are shown without it: every label is placed at 1:1 of an empty line instead of in the text it is about" % ", ".join(sorted(set(have))))
+            else:
+                r.ok(inst, where, "no project exists yet at this call")
+
+
 def panics_int(b, op):
     from rules import panics
     return panics._int_const(b, op)
@@ -1093,6 +1141,7 @@ def run(ctx, rep):
     rule_syntaxlabel(ctx, rep)
     rule_rangeend(ctx, rep)
     rule_fileidx(ctx, rep)
+    rule_display(ctx, rep)
     from rules.c15 import rule_verbatim
     rule_verbatim(ctx, rep, rid="R-C05-verbatim")
     from rules import c05_blank, c05_joinorder
